@@ -28,6 +28,9 @@
 (*   yacc_and_or_same_prec  sql.y: %left AND OR on one line (sql node only)*)
 (*   yacc_int_saturate      yyParser.Lex ignores the range error of        *)
 (*                          strconv.ParseInt (sql node only)               *)
+(*   hand_no_bitwise        token.go operatorMap lacks & | ^ : ParseExpr   *)
+(*                          (store) stops there and, not insisting on the  *)
+(*                          end of the input, silently drops the rest      *)
 (***************************************************************************)
 EXTENDS Integers, Sequences, FiniteSets, TLC
 
@@ -77,7 +80,9 @@ IntLits   == {"i_small", "i_neg", "i_max", "i_min", "i_minp1", "u_big", "i_fint"
 FloatLits == {"f_int", "f_frac", "f_tiny", "f_big", "f_negbig"}
 NumLits   == IntLits \cup FloatLits
 RegexLits == {"x_plain", "x_slash", "x_bslash"}
-YaccOnly  == {"yacc_and_or_same_prec", "yacc_int_saturate"}
+YaccOnly  == {"yacc_and_or_same_prec", "yacc_int_saturate"}   \* deviations of the statement parser (sql.y)
+HandOnly  == {"hand_no_bitwise"}                              \* deviations of the hand-written ParseExpr
+BitOps    == {"&", "|", "^"}
 
 \* influxql/token.go Precedence(); D = deviations in force for this parser
 Prec(op, D) ==
@@ -116,34 +121,48 @@ ParseLit(c, D) ==
     [] c = "i_min" /\ "yacc_int_saturate" \in D -> "i_minp1"
     [] OTHER -> c
 
+\* a syntax error is the leaf ERR_syntax; it swallows everything
+Err     == [t |-> Lit("ERR_syntax"), r |-> <<>>]
+IsErr(x) == x.t.k = "lit" /\ x.t.v = "ERR_syntax"
+Closes(x) == ~IsErr(x) /\ x.r # <<>> /\ Head(x.r).t = "rp"
+IsOp(t, D) == t.t = "op" /\ ~("hand_no_bitwise" \in D /\ t.v \in BitOps)
+
 RECURSIVE ParseE(_, _, _), ParseP(_, _), Climb(_, _, _, _)
 ParseP(ts, D) ==
+  IF ts = <<>> THEN Err ELSE
   LET h == Head(ts) IN
-  CASE h.t = "lp" -> LET in == ParseE(Tail(ts), 1, D) IN [t |-> Paren(in.t), r |-> Tail(in.r)]
+  CASE h.t = "lp" -> LET in == ParseE(Tail(ts), 1, D) IN
+                     IF Closes(in) THEN [t |-> Paren(in.t), r |-> Tail(in.r)] ELSE Err
     [] h.t = "op" /\ h.v = "-" ->
          LET p == ParseP(Tail(ts), D) IN
-         [t |-> IF "neg_desugar_mul" \in D THEN Bin("*", Lit("i_neg1"), p.t) ELSE Neg(p.t), r |-> p.r]
+         IF IsErr(p) THEN Err
+         ELSE [t |-> IF "neg_desugar_mul" \in D THEN Bin("*", Lit("i_neg1"), p.t) ELSE Neg(p.t), r |-> p.r]
     [] h.t = "fn" ->
          LET rest == Tail(Tail(ts)) IN      \* the token after the name is "("
-         IF Head(rest).t = "rp" THEN [t |-> Call(h.v, <<>>), r |-> Tail(rest)]
+         IF rest # <<>> /\ Head(rest).t = "rp" THEN [t |-> Call(h.v, <<>>), r |-> Tail(rest)]
          ELSE LET a1 == ParseE(rest, 1, D) IN
-              IF Head(a1.r).t = "rp" THEN [t |-> Call(h.v, <<a1.t>>), r |-> Tail(a1.r)]
+              IF Closes(a1) THEN [t |-> Call(h.v, <<a1.t>>), r |-> Tail(a1.r)]
+              ELSE IF IsErr(a1) \/ a1.r = <<>> \/ Head(a1.r).t # "comma" THEN Err
               ELSE LET a2 == ParseE(Tail(a1.r), 1, D) IN
-                   [t |-> Call(h.v, <<a1.t, a2.t>>), r |-> Tail(a2.r)]
+                   IF Closes(a2) THEN [t |-> Call(h.v, <<a1.t, a2.t>>), r |-> Tail(a2.r)] ELSE Err
     [] h.t = "lit" -> [t |-> Lit(ParseLit(h.v, D)), r |-> Tail(ts)]
     [] h.t = "ref" -> [t |-> Ref(h.v), r |-> Tail(ts)]
+    [] OTHER -> Err
 
 Climb(lhs, ts, minp, D) ==
-  IF ts # <<>> /\ Head(ts).t = "op" /\ Prec(Head(ts).v, D) >= minp
+  IF ts # <<>> /\ IsOp(Head(ts), D) /\ Prec(Head(ts).v, D) >= minp
   THEN LET op  == Head(ts).v
            nm  == IF "right_assoc" \in D THEN Prec(op, D) ELSE Prec(op, D) + 1
            rhs == ParseE(Tail(ts), nm, D)
-       IN Climb(Bin(op, lhs, rhs.t), rhs.r, minp, D)
+       IN IF IsErr(rhs) THEN Err ELSE Climb(Bin(op, lhs, rhs.t), rhs.r, minp, D)
   ELSE [t |-> lhs, r |-> ts]
 
-ParseE(ts, minp, D) == LET p == ParseP(ts, D) IN Climb(p.t, p.r, minp, D)
+ParseE(ts, minp, D) == LET p == ParseP(ts, D) IN IF IsErr(p) THEN Err ELSE Climb(p.t, p.r, minp, D)
 
-ParseAll(ts, D) == LET x == ParseE(ts, 1, D) IN IF x.r = <<>> THEN x.t ELSE Lit("ERR_trailing")
+\* parser.go ParseExpr returns at the first token that is not an operator and does not look further:
+\* the design insists on the end of the input
+ParseAll(ts, D) == LET x == ParseE(ts, 1, D) IN
+                   IF x.r = <<>> \/ IsErr(x) \/ "hand_no_bitwise" \in D THEN x.t ELSE Lit("ERR_trailing")
 
 -----------------------------------------------------------------------------
 \* the trees a parser can produce: canonical w.r.t. the precedence table
@@ -200,13 +219,18 @@ Chain(Dsql, Dstore) ==
   LET p == ParseAll(text, Dsql)
       g == ParseAll(Render(p, Dstore), Dstore)
   IN <<p, g>>
-StoreOf(D) == D \ YaccOnly
-Active(all) == {d \in all : Chain(all, StoreOf(all)) # Chain(all \ {d}, StoreOf(all \ {d}))}
-Pred(all) == LET c == Chain(all, StoreOf(all)) IN
-             IF c = <<tree, tree>> THEN [plan |-> <<>>, got |-> <<>>, act |-> {}]   \* as the design
-             ELSE [plan |-> IF c[1] = tree THEN <<>> ELSE <<c[1]>>,
-                   got  |-> IF c[2] = tree THEN <<>> ELSE <<c[2]>>,
-                   act  |-> Active(all)]
+StoreOf(D) == D \ YaccOnly    \* the store parses with the hand-written ParseExpr
+SqlOf(D)   == D \ HandOnly    \* the sql node parses statements with sql.y
+\* flavour "y" (production): sql.y on the sql node, ParseExpr on the store; flavour "h": ParseExpr on both
+SqlDevOf(all, flv) == IF flv = "y" THEN SqlOf(all) ELSE StoreOf(all)
+ChainF(all, flv) == Chain(SqlDevOf(all, flv), StoreOf(all))
+Active(all, flv) == {d \in all : ChainF(all, flv) # ChainF(all \ {d}, flv)}
+Pred(all, flv) ==
+  LET c == ChainF(all, flv) IN
+  IF c = <<tree, tree>> THEN [plan |-> <<>>, got |-> <<>>, act |-> {}]   \* as the design
+  ELSE [plan |-> IF c[1] = tree THEN <<>> ELSE <<c[1]>>,
+        got  |-> IF c[2] = tree THEN <<>> ELSE <<c[2]>>,
+        act  |-> Active(all, flv)]
 
 Init == /\ pc = "init" /\ tree = Nil /\ text = <<>> /\ plan = Nil /\ wire = <<>> /\ got = Nil
         /\ hist = <<>>
@@ -225,10 +249,10 @@ Type(e) ==
 Plan ==
   /\ pc = "typed"
   /\ pc' = "planned"
-  /\ plan' = ParseAll(text, Dev)
+  /\ plan' = ParseAll(text, SqlOf(Dev))
   /\ UNCHANGED <<tree, text, wire, got>>
   /\ hist' = Append(hist, [a |-> "Plan", args |-> <<>>, exp |-> "plan = tree",
-                           pred |-> [h |-> Pred(StoreOf(ImplDev)), y |-> Pred(ImplDev)]])
+                           pred |-> [h |-> Pred(ImplDev, "h"), y |-> Pred(ImplDev, "y")]])
 
 \* query.encodeProcessorOptions: pb.Condition = opt.Condition.String()
 Ship ==
